@@ -518,8 +518,41 @@ def general(prog, rep):
 _run_clauses = run
 
 
+def waiter_registration(prog, rep):
+    """general model: a thread registers as waiting once, before its wait loop, and deregisters once, after it.  Inside a loop around a
+    condition wait the waiter field is not stored: a thread that is woken, finds the lock still busy and sleeps again must still be
+    counted, or the last holder out sees no waiter and signals nobody (the lock is free and the thread sleeps for ever)."""
+    gu = prog.unit("prwlock-general.c")
+    nreg = 0
+    for f in sorted(gu.functions.values(), key=lambda f_: f_.loc[0]):
+        waits = [(b, i, c) for (b, i, c) in f.calls() if c.get("callee") == "p_cond_variable_wait"]
+        if not waits:
+            continue
+        nreg += 1
+        bad = []
+        for (h, body) in f.loops():
+            if not any(b.id in body for (b, i, c) in waits):
+                continue
+            for (b, i, n) in f.nodes(elsewhere=True):
+                if b.id in body and n["k"] == "asg" and strip_casts(n["l"])["k"] == "member" and strip_casts(n["l"])["field"] == "waiting_threads":
+                    bad.append(n)
+        rep.ob("C02.4", f, "registration", not bad, "the waiter field is stored before and after the wait loop, never inside it" if not bad else
+               "line %d: %s changes the waiter count inside its wait loop: a thread that wakes with the lock still busy goes back to sleep unregistered, and the unlock that "
+               "frees the lock finds no waiter to signal" % (line(bad[0]), f.name), bad[0] if bad else f.loc[0])
+    return nreg
+
+
 def run(prog, rep):
-    _run_clauses(prog, rep)
+    nreg = waiter_registration(prog, rep)
+    try:
+        _run_clauses(prog, rep)
+    except AnalysisBroken:
+        # the term-valued analysis of a function whose counters change on every loop iteration does not converge; when the structural
+        # clause above has already named the defect that is a finding, not a broken analysis
+        if not any((not o.ok) for o in rep.obs if o.rule == "C02.4" and o.key().endswith(":registration")):
+            raise
+    if nreg < 2:
+        raise AnalysisBroken("prwlock-general.c: expected two functions with a condition wait (reader_lock, writer_lock)")
     from plint.wiring import check_zero_init
     from plint.wiring import destroy_before_free
     _ff = prog.unit("prwlock-posix.c").fn("p_rwlock_free")
@@ -532,6 +565,9 @@ def run(prog, rep):
 RENAME_LOCALS = ['src/prwlock-posix.c', 'src/prwlock-general.c']
 
 SELFTEST = [
+    dict(id="general-writer-deregisters-in-loop", file="src/prwlock-general.c", expect="C02.4",
+         old="\t\twhile (lock->active_threads) {\n\t\t\twait_ok = p_cond_variable_wait (lock->write_cv, lock->mutex);",
+         new="\t\twhile (lock->active_threads) {\n\t\t\tlock->waiting_threads = P_RWLOCK_SET_WRITERS (lock->waiting_threads, P_RWLOCK_WRITER_COUNT (lock->waiting_threads));\n\t\t\twait_ok = p_cond_variable_wait (lock->write_cv, lock->mutex);"),
     dict(id="general-new-raw-malloc", file="src/prwlock-general.c", expect="C02.3",
          old="(ret = p_malloc0 (sizeof (PRWLock)))", new="(ret = p_malloc (sizeof (PRWLock)))"),
     dict(id="posix-writer-preferring-kind", file="src/prwlock-posix.c", expect="C02.1",
